@@ -59,6 +59,25 @@ pub struct HCase {
     /// "module_deadline" (their diff_deadline), "slices" / "slices_deadline"
     /// (algorithms::diff_slices(_deadline); whole slices, stack "none" only)
     pub entry: &'static str,
+    /// 0 = ordinary positions; k > 0 = far-away index windows (lookup `FarLookup`), variant k of
+    /// `far_bases`; os/oe/ns/ne stay relative to the window
+    pub far: usize,
+}
+
+/// index bases of the far-position variants for windows of n / m items
+pub fn far_bases(k: usize, n: usize, m: usize) -> (usize, usize) {
+    let top = usize::MAX;
+    let half = 1usize << 63;
+    match k {
+        1 => (top - n, 5),             // the old range ends at usize::MAX
+        2 => (7, top - m),             // the new range ends at usize::MAX
+        3 => (top - n, top - m),       // both do
+        4 => (half - n / 2, 3),        // the old window straddles isize::MAX
+        5 => (half - 1, half),         // old + new positions reach 2^64
+        6 => (half + 1, half - m.min(half - 1)),
+        7 => (1usize << 62, (1usize << 62) + 11),
+        _ => (0, 0),
+    }
 }
 
 impl HCase {
@@ -76,6 +95,7 @@ impl HCase {
             fuel: -2,
             fail_at: -1,
             entry: "dispatch_deadline",
+            far: 0,
         }
     }
 }
@@ -90,8 +110,9 @@ where
     } else {
         Some(rec::far_future())
     };
-    let or: Range<usize> = c.os..c.oe;
-    let nr: Range<usize> = c.ns..c.ne;
+    let (bo, bn) = if c.far > 0 { far_bases(c.far, c.old.len(), c.new.len()) } else { (0, 0) };
+    let or: Range<usize> = bo + c.os..bo + c.oe;
+    let nr: Range<usize> = bn + c.ns..bn + c.ne;
     match (c.entry, c.alg) {
         ("dispatch", _) if deadline.is_none() => algorithms::diff(c.alg, d, old, or, new, nr),
         ("module", Algorithm::Myers) if deadline.is_none() => algorithms::myers::diff(d, old, or, new, nr),
@@ -181,8 +202,14 @@ pub fn exec(c: &HCase) -> HResult {
     } else {
         rec::install_hostile_clock(); // no deadline is passed: the clock must be unobservable
     }
+    let (bo, bn) = if c.far > 0 { far_bases(c.far, c.old.len(), c.new.len()) } else { (0, 0) };
+    rec::set_bases(bo, bn);
     let r = rec::guarded(|| {
-        if c.index == "window" {
+        if c.far > 0 {
+            let old = rec::FarLookup { data: rec::items(&c.old), base: bo };
+            let new = rec::FarLookup { data: rec::items(&c.new), base: bn };
+            run_stack(c, &old, &new)
+        } else if c.index == "window" {
             let old = Window {
                 data: rec::items(&c.old),
                 lo: c.os,
@@ -215,6 +242,7 @@ pub fn exec(c: &HCase) -> HResult {
             run_stack::<[Item]>(c, &old[..], &new[..])
         }
     });
+    rec::set_bases(0, 0);
     let probes = rec::probes();
     let xcmps = rec::first_expired_cmps();
     rec::remove_clock();
@@ -230,7 +258,7 @@ pub fn exec(c: &HCase) -> HResult {
 pub fn start_json(c: &HCase, case: i64) -> Value {
     json!({"ev":"start","case":case,"alg":alg_name(c.alg),"old":seq_json(&c.old),"new":seq_json(&c.new),
            "os":c.os,"oe":c.oe,"ns":c.ns,"ne":c.ne,"index":c.index,"stack":c.stack,
-           "fuel":c.fuel,"fail_at":c.fail_at,"entry":c.entry})
+           "fuel":c.fuel,"fail_at":c.fail_at,"entry":c.entry,"far":c.far})
 }
 
 /// run and write the trace of one case; returns the result for further use
@@ -520,6 +548,22 @@ pub fn drive_c01(a: &Args, out: &mut Out) {
             c2.index = if i % 2 == 0 { "window" } else { "slice" };
             c2.entry = ["module", "dispatch_deadline", "dispatch", "module_deadline"][(i / 2) % 4];
             let sub = run_case(&c2, out);
+            // far-away index windows (positions near usize::MAX, around isize::MAX, sums reaching
+            // 2^64): whole windows and sub-ranges, every stack in turn
+            if i % 4 == 1 {
+                let mut c4 = HCase::simple(alg, x, y);
+                c4.index = "far";
+                c4.far = 1 + (i / 4) % 7;
+                c4.stack = STACKS[(i / 4) % STACKS.len()];
+                if i % 8 == 5 && x.len() >= 2 && y.len() >= 2 {
+                    c4.os = 1;
+                    c4.ns = 1;
+                    c4.oe = x.len() - 1 + (i / 8) % 2;
+                    c4.ne = y.len() - (i / 8) % 2;
+                }
+                c4.entry = ["dispatch_deadline", "module", "dispatch"][(i / 4) % 3];
+                run_case(&c4, out);
+            }
             // both sides are windows of ONE buffer (the same object passed twice): x ++ y with
             // the two halves as ranges, or two arbitrary (overlapping, equally long) windows
             if i % 3 == 0 {
